@@ -286,6 +286,7 @@ def run_case(case, FST, oracle=True):
     def bad(cls, detail, mut=None):
         viol.append((cls, detail, mut or res['last_mut']))
 
+    norm = case.get('norm', True)        # norm=False edits may leave a tree that is not valid Python: no final-tree oracle
     srch = case.get('search')            # {'nested': bool}: the consumer drives FST.search() instead of FST.walk()
     try:
         if srch:
@@ -396,9 +397,11 @@ def run_case(case, FST, oracle=True):
                 follow = _following(wroot.a, a, all_, case.get('back', False))
             try:
                 if op == 'replace':
-                    ret = tf.replace(kind_code(ta) if act[2] == '@kind' else act[2], norm=True)
+                    ret = tf.replace(kind_code(ta) if act[2] == '@kind' else act[2], norm=norm)
                     if ta is a:
                         cur_new = getattr(ret, 'a', None)      # the single node the current node was replaced with
+                elif op == 'delfield':
+                    tf.put_slice(None, 0, 'end', act[2], norm=norm)     # delete every element of a (virtual) list field
                 elif op in ('delslice', 'putslice'):
                     site = slice_site(ta)
                     if site is None:
@@ -406,9 +409,9 @@ def run_case(case, FST, oracle=True):
                     pf, field, idx, n = site
                     stop = min(idx + act[2], n)
                     code = None if op == 'delslice' else SLICE_CODE.get(pf.a.__class__.__name__, '[zz, yy]')
-                    pf.put_slice(code, idx, stop, field, norm=True)
+                    pf.put_slice(code, idx, stop, field, norm=norm)
                 else:
-                    tf.remove(norm=True)
+                    tf.remove(norm=norm)
             except Exception as e:
                 res['end'] = 'rejected'
                 res['rejected'] = f'{op} {sel}: {type(e).__name__}: {e}'
@@ -432,7 +435,7 @@ def run_case(case, FST, oracle=True):
                 if t[0] >= old_next and any(kk[0] < old_next for kk in t[4]):
                     res['moved'] = True        # a fresh AST adopted existing children (in-place Try <-> TryStar switch)
                 st.extend(t[4])
-            if op in ('delslice', 'putslice'):
+            if op in ('delslice', 'putslice', 'delfield'):
                 res['idealA'] = False                      # slice edit: the model follows the observed tree
                 mA.append(['settree', t_now, num.next])
             elif op == 'replace':
@@ -506,7 +509,7 @@ def run_case(case, FST, oracle=True):
                     bad('enter-without-leave', f'{fa.__class__.__name__} was yielded on entering but never on leaving',
                         ('send-false', 'root') if (fo is wroot and root_sent_false) else None)
                     break
-        d = final_oracle(root, case.get('mode', 'exec'))
+        d = final_oracle(root, case.get('mode', 'exec')) if norm else None
         if d:
             bad('final-tree', d)
     res['final'] = num.ser(root.a)
